@@ -130,8 +130,9 @@ def check(spec, stats):
                 try:
                     ret = b.add(name, reg, offset=off)
                     ok = True
-                except (TypeError, ValueError) as e:
+                except (TypeError, ValueError) as exc:
                     ok = False
+                    e = exc
                 if ok and bad:
                     raise Violation("C17/invalid-add-accepted", f"add({name!r}, offset={off!r}) accepted "
                                     f"(frozen={frozen[0]}, ratio={ratio})")
